@@ -1,2 +1,21 @@
 import FpgoVerif.Props.C02
 /-! `#print axioms` for every property theorem of C02; parsed by `check`. -/
+#print axioms FpgoVerif.C02.C02_table_methods
+#print axioms FpgoVerif.C02.C02_table_int
+#print axioms FpgoVerif.C02.C02_int_to_int
+#print axioms FpgoVerif.C02.C02_table_float_to_int
+#print axioms FpgoVerif.C02.C02_float_to_int
+#print axioms FpgoVerif.C02.C02_float64_bits_to_int
+#print axioms FpgoVerif.C02.C02_float32_bits_to_int
+#print axioms FpgoVerif.C02.C02_table_misc
+#print axioms FpgoVerif.C02.C02_unsupported
+#print axioms FpgoVerif.C02.C02_nil
+#print axioms FpgoVerif.C02.C02_toBool_int
+#print axioms FpgoVerif.C02.C02_toBool_float
+#print axioms FpgoVerif.C02.C02_bool_source
+#print axioms FpgoVerif.C02.C02_table_int_to_float
+#print axioms FpgoVerif.C02.C02_int_to_float
+#print axioms FpgoVerif.C02.C02_table_float_to_uintptr
+#print axioms FpgoVerif.C02.C02_float_to_uintptr
+#print axioms FpgoVerif.C02.C02_table_string_to_int
+#print axioms FpgoVerif.C02.C02_string_to_int
